@@ -70,7 +70,8 @@ def run(ctx):
                           "the oracle takes the best path from the implementation's Loc-RIB listing (best-path selection itself is C03)"],
                          fields=("view", "best"), addpath=0.5,
                          extra_cases=lambda ctx: [simlib.gen_ap_churn(ctx.rng) for _ in range(ctx.scale(2500, 25000))] +
-                                                 [simlib.gen_coalesce(ctx.rng) for _ in range(ctx.scale(800, 8000))])
+                                                 [simlib.gen_coalesce(ctx.rng) for _ in range(ctx.scale(800, 8000))] +
+                                                 [simlib.gen_ap_flap(ctx.rng) for _ in range(ctx.scale(500, 5000))])
 
 
 def replay(ctx, path):
